@@ -448,7 +448,15 @@ func scalarToHeader(a interface{}) (hdr *storage.Header, newAlloc bool) {
 	var raw []byte
 	switch at := a.(type) {
 	case Memory:
-		raw = storage.FromMemory(at.Uintptr(), at.MemSize())
+		// a scalar held in a tensor is read through a scratch copy, like a Go value: the single-element kernels compute
+		// into the scalar's buffer, which overwrote the scalar tensor that was only an operand
+		src := storage.FromMemory(at.Uintptr(), at.MemSize())
+		raw = scalarPool(at.MemSize()).Get().([]byte)
+		copy(raw, src)
+		newAlloc = true
+		hdr = borrowHeader()
+		hdr.Raw = raw
+		return hdr, newAlloc
 	default:
 		raw = allocScalar(a)
 		newAlloc = true
